@@ -187,7 +187,7 @@ inductive CliInput where
 /-- the arguments are the test cases, whatever standard input holds — unless the single argument is a hyphen, which stands for the lines
 of standard input (`cliHyphenAloneMeansStdin`, read off `obtain_input` on every run) -/
 def cliCases : CliInput → List Str
-  | .args ws stdin => if ws = [[45]] then splitLines stdin else ws
+  | .args ws stdin => if cliHyphenAloneMeansStdin && decide (ws = [[45]]) then splitLines stdin else ws
   | .content t => splitLines t
 
 /-- what `main` does with a usable command line — the composition of `obtain_input`, `handle_input` and `println!` as read off
@@ -211,20 +211,26 @@ def libRun (env : Env) (v : CliVals) (ws : List Str) : Except Panic (Option Str)
   | .error e => .error e
 
 /-- **C12 (faithful front end, arguments)** for every flag combination with positive thresholds and every non-empty list of test cases
-the CLI prints exactly the library's `build()` result for the corresponding settings followed by a newline -/
+the CLI prints exactly the library's `build()` result for the corresponding settings followed by a newline.  `cliRun` is the composition
+written above; the content of this theorem is `cli_dispatch` (the generated chain of 18 conditional setter calls yields the documented
+configuration) and the hyphen rule (a generated fact) — the rest is unfolding -/
 theorem cli_is_library (env : Env) (v : CliVals) (h1 : 0 < v.minRepetitions) (h2 : 0 < v.minSubstringLength)
     (ws : List Str) (hws : ws ≠ []) (hhy : ws ≠ [[45]]) (stdin : Str) : cliRun env v (.args ws stdin) = libRun env v ws := by
-  simp only [cliRun, cliCases, hws, hhy, ite_false, cli_dispatch v h1 h2, libRun]
-
-/-- a hyphen as the single argument stands for standard input; a hyphen among several arguments is a test case (`cli_is_library`) -/
-theorem cli_hyphen_is_stdin (env : Env) (v : CliVals) (stdin : Str) :
-    cliRun env v (.args [[45]] stdin) = cliRun env v (.content stdin) := by
-  simp only [cliRun, cliCases, ite_true]
-  try rfl
+  simp only [cliRun, cliCases, hws, hhy, decide_false, Bool.and_false, Bool.false_eq_true, ite_false, cli_dispatch v h1 h2, libRun]
 
 theorem cli_hyphen_rule : cliHyphenAloneMeansStdin = true := rfl
 
-/-- **C12 (faithful front end, every channel)** … and the same when the test cases arrive as text with LF or CRLF line endings, with or
+/-- a hyphen as the single argument stands for standard input (by the generated fact `cliHyphenAloneMeansStdin`, on which `cliCases`
+branches); a hyphen among several arguments is a test case (`cli_is_library`) -/
+theorem cli_hyphen_is_stdin (env : Env) (v : CliVals) (stdin : Str) :
+    cliRun env v (.args [[45]] stdin) = cliRun env v (.content stdin) := by
+  simp only [cliRun, cliCases, cli_hyphen_rule, decide_true, Bool.and_self, ite_true]
+  try rfl
+
+
+/-- **C12 (faithful front end, text through `str::lines`)** … and the same when the test cases arrive as text — a file, standard input
+and a file named on standard input are one constructor of the model (`obtain_input` applies `lines` to all three; reading the file name
+from standard input is not modelled, it is exercised on the binary) — with LF or CRLF line endings, with or
 without a final line break (test cases that can travel on a line of their own: no line feed inside, no carriage return at the end under
 LF; the last one non-empty unless the final line break is written) -/
 theorem cli_channels_agree (env : Env) (v : CliVals) (h1 : 0 < v.minRepetitions) (h2 : 0 < v.minSubstringLength)
@@ -237,10 +243,12 @@ theorem cli_channels_agree (env : Env) (v : CliVals) (h1 : 0 < v.minRepetitions)
     | false => exact lines_roundtrip_lf ws final (fun w hw => ⟨(h w hw).1, (h w hw).2 rfl⟩) hlast
   simp only [cliRun, cliCases, hl, hws, ite_false, cli_dispatch v h1 h2, libRun]
 
-/-- **C12 (no test cases)** an empty file, empty standard input or no usable line ends with the one-line error, on every channel -/
+/-- **C12 (no test cases)** empty content (an empty file, empty standard input) and an empty argument list end with the one-line error.
+(A file of blank lines is not empty input: `"\n"` is the test case `""`.  Missing file and invalid UTF-8 are the generated facts of
+`cli_error_paths`; that `cliRun` never ends in `.error` follows from `C07.build_total` outside verbose mode with both anchors off.) -/
 theorem cli_empty_input (env : Env) (v : CliVals) (stdin : Str) :
     cliRun env v (.content []) = .ok none ∧ cliRun env v (.args [] stdin) = .ok none ∧ cliRun env v (.args [[45]] []) = .ok none := by
-  refine ⟨?_, ?_, ?_⟩ <;> simp [cliRun, cliCases, splitLines, splitLines.go]
+  refine ⟨?_, ?_, ?_⟩ <;> simp [cliRun, cliCases, cli_hyphen_rule, splitLines, splitLines.go]
 
 /-! non-vacuity -/
 example : (match cliRun { lowerOf := id, segOf := fun w => w.map fun c => [c] } { digits := true } (.content (strOf "a1\r\nb\r\n")) with
